@@ -139,7 +139,7 @@ def minimums(tier: str) -> Dict[str, int]:
         "payload:empty": 3000 if q else 20000,
         "doc_pred_stages": 11000 if q else 75000,
         "geom:bpc1": 29000 if q else 230000,
-        "geom:multicolor": 39000 if q else 400000,
+        "geom:multicolor": 39000 if q else 400000, "geom:bpc1_pixel_of_2plus_bytes": 700 if q else 7000,
     }
 
 
@@ -278,7 +278,9 @@ def fit_geometry(rng: random.Random, n: int, png: bool) -> Dict[str, int]:
         columns = rb // colors
     else:
         while True:
-            colors = rng.choice((1, 2, 3, 4))
+            # 1-bit samples: a quarter of the cases have 16/24/32 components, a pixel of 2-4 whole bytes
+            # (component counts that leave a partial byte are not generated: PNG defines bpp only for whole pixels)
+            colors = rng.choice((1, 2, 3, 4)) if rng.random() < 0.75 else rng.choice((16, 24, 32))
             lo = ((rb - 1) * 8) // colors + 1
             hi = (rb * 8) // colors
             if lo <= hi:
@@ -291,6 +293,8 @@ def fit_geometry(rng: random.Random, n: int, png: bool) -> Dict[str, int]:
 def random_geometry(rng: random.Random, png: bool) -> Dict[str, int]:
     bpc = rng.choice((8, 8, 1)) if png else 8
     colors = rng.choice((1, 2, 3, 4, 1, 3, rng.choice((5, 6, 8)) if rng.random() < 0.1 else 2))
+    if bpc == 1 and rng.random() < 0.25:
+        colors = rng.choice((16, 24, 32))                  # 1-bit pixels of 2-4 whole bytes
     columns = rng.choice((rng.randint(1, 70), rng.randint(1, 9)))
     return {"Colors": colors, "Columns": columns, "BitsPerComponent": bpc}
 
@@ -570,6 +574,8 @@ def _count_geom(rec, p: Dict[str, int], ft: List[int]) -> None:
     rec.count("geom:bpc%d" % p["BitsPerComponent"])
     if p["Colors"] > 1:
         rec.count("geom:multicolor")
+    if p["BitsPerComponent"] == 1 and p["Colors"] >= 16:
+        rec.count("geom:bpc1_pixel_of_2plus_bytes")
     rec.see("colors", p["Colors"])
     if ft:
         rec.see("row0_filters", ft[0])
